@@ -8,6 +8,7 @@ structure St where
   fin : Filters := []
   fnotin : Filters := []
   reTab : List (Bytes × Bytes × Bool) := []
+  qx : Option QCfg := none
 
 def parseBool? (s : String) : Option Bool :=
   if s = "0" then some false else if s = "1" then some true else none
@@ -75,6 +76,26 @@ def step (st : St) (toks : List String) : St × List String :=
     match st.cfg with
     | some c => (st, ["where " ++ showHex (whereBytes c st.fin st.fnotin)])
     | none => (st, ["bad-op"])
+  | ["qx", step, utc, loc, sharded, whats, minH, maxH, sort, settings, tagI, tagRaw, tagRaw64, numRes] =>
+    match step.toInt?, utc.toInt?, parseHex? loc, parseBool? sharded, parseNatList? whats, parseBool? minH, parseBool? maxH,
+          sort.toNat?, parseHex? settings, tagI.toInt?, parseBool? tagRaw, parseBool? tagRaw64, numRes.toInt? with
+    | some step, some utc, some loc, some sharded, some whats, some minH, some maxH, some sort, some settings, some tagI,
+      some tagRaw, some tagRaw64, some numRes =>
+      if sort < 3 && (tagI == -1 || (0 ≤ tagI && tagI < 48)) then
+        ({ st with qx := some { step := step, utcOffset := utc, loc := loc, sharded := sharded, whats := whats, minHost := minH,
+                                 maxHost := maxH, sort := sort, settings := settings, tagIndex := tagI, tagRaw := tagRaw,
+                                 tagRaw64 := tagRaw64, numResults := numRes } }, [])
+      else (st, ["bad-op"])
+    | _, _, _, _, _, _, _, _, _, _, _, _, _ => (st, ["bad-op"])
+  | ["body"] =>
+    match st.cfg, st.qx with
+    | some c, some e =>
+      if c.groupBy.all (fun x => x == shardIndex || (0 ≤ x && x < 48)) then
+        match queryBytes c e st.fin st.fnotin with
+        | some b => (st, ["body " ++ showHex b])
+        | none => (st, ["body-error"])
+      else (st, ["bad-op"])
+    | _, _ => (st, ["bad-op"])
   | ["lex", h] =>
     match parseHex? h with
     | some b =>
